@@ -1609,3 +1609,69 @@ def rule_no_dead_element_store(ctx):
     ctx.holds("DEADELEM", "DEADELEM:all", "-", "%d functions scanned: no constant-element store is killed by a following whole-array loop" % n, nontrivial=False)
     ctx.floor("DEADELEM", 500, n, "(functions scanned)")
     return n
+
+
+def rule_single_field_stride(ctx):
+    """ONEFIELD (C07): VSread serves a single-field Vdata without consulting the read list (`if (w->n == 1) DFKconvert(Vtbuf,
+    Src, w->type[0], ..)`), which is why such a Vdata may be read without VSsetfields.  In the piece-wise loop the pointer into
+    the caller's buffer is advanced by `chunk * uvsize`; since the single-field arm does not depend on the read list, the size
+    it advances by must not either: `uvsize` has a definition under the same `w->n == 1` test.  Summed over an empty read list
+    it is 0 and every piece of a request above VDATA_BUFFER_MAX lands at the start of the buffer."""
+    from .codec import ast_walk
+    prog = ctx.prog
+    n = 0
+    for f in prog.lib_funcs():
+        ast = f.raw.get("ast")
+        if not ast or not f.rel.endswith("hdf/src/vrw.c"):
+            continue
+
+        def is_single(c):
+            for x in walk(c, True):
+                if x[0] == "bin" and x[1] == "==" and kind(strip(x[2])) == "mem" and strip(x[2])[2] == "n" and is_int(x[3], 1):
+                    return True
+            return False
+
+        for lp, st in loops_of(f):
+            if lp[0] != "while":
+                continue
+            # the loop has an arm chosen by `w->n == 1` that converts straight into the cursor
+            arm = False
+            adv = None
+
+            def vis(nd, s2):
+                nonlocal arm, adv
+                if nd[0] == "if" and nd[1] is not None and is_single(nd[1]) and any(c[1] == "DFKconvert" for e, _k in seq_of(nd[2]) for c in calls_in(e, True)):
+                    arm = True
+                if nd[0] == "s" and nd[1] is not None:
+                    for x in walk(nd[1], True):
+                        if x[0] == "asg" and x[1] == "+=" and kind(strip(x[2])) == "var" and kind(strip(x[3])) == "bin" and strip(x[3])[1] == "*":
+                            vs_ = [y[1] for y in (strip(strip(x[3])[2]), strip(strip(x[3])[3])) if kind(y) == "var"]
+                            if len(vs_) == 2:
+                                adv = (strip(x[2])[1], vs_, nd)
+                return True
+
+            ast_walk(loop_body(lp), vis)
+            if not (arm and adv):
+                continue
+            n += 1
+            key = "ONEFIELD:%s:%s" % (f.name, adv[0])
+            line = node_line(adv[2])
+            # a definition of one of the two factors under a `w->n == 1` test, anywhere in the routine
+            ok = False
+
+            def vis2(nd, s2):
+                nonlocal ok
+                if nd[0] == "s" and nd[1] is not None:
+                    for x in walk(nd[1], True):
+                        if x[0] == "asg" and x[1] == "=" and kind(strip(x[2])) == "var" and strip(x[2])[1] in adv[1]:
+                            if any(a[0] == "if" and a[1] is not None and is_single(a[1]) for a in s2):
+                                ok = True
+                return True
+
+            ast_walk(ast, vis2)
+            if ok:
+                ctx.holds("ONEFIELD", key, f.where(line), "`%s += %s * %s`: the record size has a definition under the single-field test, independent of the read list" % (adv[0], adv[1][0], adv[1][1]), nontrivial=True)
+            else:
+                ctx.violated("ONEFIELD", key, f.where(line), "`%s += %s * %s` in a loop whose single-field arm ignores the read list, but the record size is only ever summed over the read list: with no VSsetfields it is 0 and the cursor never moves" % (adv[0], adv[1][0], adv[1][1]))
+    ctx.floor("ONEFIELD", 1, n, "(piece-wise loops with a single-field arm)")
+    return n
